@@ -16,6 +16,11 @@ def run(ctx):
     st = seq.all_stacks(NAMES, 2 if quick else 3)
     parts = 2 if quick else 8
     jobs = [dict(ctx=ctx, binary=binary, name="ev%d" % k, stacks=st[k::parts], outs=seq.OUTS3, maxcalls=3 if quick else 4, execs=2, workers=8, entries=1 if quick else 2) for k in range(parts)]
+    # retries that end because their max duration ran out (before or after the retry count), with and without ReturnLastFailure:
+    # timed outcomes, every retry listener
+    outs_t = [seq.out("R1", d=1), seq.out("R0", "E1"), seq.out("R0", "E1", d=1), seq.out("R0", "E1", d=2), seq.out("R0", "E2", d=3)]
+    timed = [["rpD"], ["rpDL"], ["rpUD"], ["rpDL", "cbA"], ["fbR", "rpDL"], ["rpDL", "rp1"], ["to", "rpDL"]]
+    jobs.append(dict(ctx=ctx, binary=binary, name="evtimed", stacks=timed, outs=outs_t, maxcalls=4, execs=1, workers=4))
     mism = seq.run_jobs(ctx, jobs, par=2)
     seq.report(ctx, mism, accept)
     # events under concurrency: OnFull / OnTimeoutExceeded / OnHedge / OnRetry fire exactly when the model's step happens
